@@ -1,5 +1,6 @@
 import Bardolph.Proofs.SimLoad
 import Bardolph.Proofs.SimCalls
+import Bardolph.Proofs.SimVals
 /-!
 # C01 — the compiled code does what the source says (simulation, partial)
 
@@ -187,6 +188,11 @@ structure Sim.AllGoals (V : String → Prop) (img : Image) (R : List (String × 
   loopR : ∀ r st, LoopRet V img ⟨some (r, st), R⟩ f
   whileR : ∀ r st, WhileRet V img ⟨some (r, st), R⟩ f
   countR : ∀ r st, CountRet V img ⟨some (r, st), R⟩ f
+  expr : ∀ r, ExprGoal V img ⟨r, R⟩ f
+  call : ∀ r, CallGoal V img ⟨r, R⟩ f
+  rv : ∀ r, RvGoal V img ⟨r, R⟩ f
+  args : ∀ r, ArgsGoal V img ⟨r, R⟩ f
+  rvTo : ∀ r, RvToGoal V img ⟨r, R⟩ f
 
 theorem Sim.allGoals_le (img : Image) (R : List (String × Sem.Routine)) (hR : RoutinesAt V img R) :
     ∀ f, ∀ g, g ≤ f → AllGoals V img R g := by
@@ -199,7 +205,8 @@ theorem Sim.allGoals_le (img : Image) (R : List (String × Sem.Routine)) (hR : R
       fun _ => loop_zero, fun _ => while_zero, fun _ => count_zero,
       fun _ _ => stmts_ret_zero, fun _ _ => block_ret_zero, fun _ _ => operand_ret_zero,
       fun _ _ => operands_ret_zero, fun _ _ => loop_ret_zero, fun _ _ => while_ret_zero,
-      fun _ _ => count_ret_zero⟩
+      fun _ _ => count_ret_zero, fun _ => expr_zero, fun _ => call_zero, fun _ => rv_zero, fun _ => args_zero,
+      fun _ => rvTo_zero⟩
   | succ f ihle =>
     intro g hg
     by_cases hlt : g ≤ f
@@ -221,7 +228,12 @@ theorem Sim.allGoals_le (img : Image) (R : List (String × Sem.Routine)) (hR : R
         fun r st => loop_ret_step f (ih.whileR r st) (ih.countR r st)
           (fun g hg => (ihle g (by omega)).countR r st),
         fun r st => while_ret_step f (ih.block _) (ih.blockR r st) (ih.whileR r st),
-        fun r st => count_ret_step f (ih.block _) (ih.blockR r st) (ih.countR r st)⟩
+        fun r st => count_ret_step f (ih.block _) (ih.blockR r st) (ih.countR r st),
+        fun r => expr_step f (ih.expr r) (ih.call r),
+        fun r => call_step f hR (ih.args r) (fun r' st => ih.block (some (r', st))) (fun r' st => ih.blockR r' st),
+        fun r => rv_step f (ih.expr r) (ih.call r),
+        fun r => args_step f (ih.rv r) (ih.args r),
+        fun r => rvTo_step f (ih.expr r) (ih.call r)⟩
 
 theorem Sim.allGoals (img : Image) (R : List (String × Sem.Routine)) (hR : RoutinesAt V img R) (f : Nat) :
     AllGoals V img R f := allGoals_le img R hR f f (Nat.le_refl f)
@@ -734,7 +746,7 @@ def callImg : Image :=
 
 def callRoutines : List (String × Sem.Routine) := [("down", ⟨["n"], downBody⟩)]
 
-theorem downBody_frag : FragBlock (fun _ => True) downBody := by
+theorem downBody_frag : FragBlock (fun _ => False) downBody := by
   simp only [downBody, Block.ofList, FragBlock, FragStmt, RvOK, LoopHdrOK, NoResultReg]
   refine ⟨?_, ?_, ?_, ?_, ?_, ?_⟩
   all_goals first
@@ -742,7 +754,7 @@ theorem downBody_frag : FragBlock (fun _ => True) downBody := by
     | decide
     | (repeat' constructor) <;> first | trivial | decide | nofun
 
-theorem mainBlock_frag : FragBlock (fun _ => True) mainBlock := by
+theorem mainBlock_frag : FragBlock (fun _ => False) mainBlock := by
   simp only [mainBlock, Block.ofList, FragBlock, FragStmt, RvOK, NoResultReg]
   refine ⟨?_, ?_, ?_, ?_, ?_, ?_, ?_⟩
   all_goals first
@@ -767,11 +779,11 @@ example : (Loader.load ([Instr.routine "down"] ++ downCode ++ [Instr.end_ "down"
     (Loader.load ([Instr.routine "down"] ++ downCode ++ [Instr.end_ "down"] ++ mainCode)).routines =
       callImg.routines := by decide +kernel
 
-theorem callImg_routines : RoutinesAt (fun _ => True) callImg callRoutines := by
+theorem callImg_routines : RoutinesAt (fun _ => False) callImg callRoutines := by
   intro name
   by_cases h : name = "down"
   · subst h
-    refine ⟨downBody_frag, 2, "down", rfl, ?_⟩
+    refine ⟨downBody_frag, fun h => h.elim, 2, "down", rfl, ?_⟩
     rw [resolve_of_mapM _ _ downBody_code]
     exact CodeAt.intro [Instr.jump .always 52, .routine "down"] (downCode ++ [Instr.end_ "down"]) mainCode _
   · have h1 : ("down" == name) = false := by
